@@ -19,6 +19,7 @@ import Wf.Drv.Rescue
 import Wf.Drv.RandomCoin
 import Wf.Drv.Fri
 import Wf.Drv.TraceTable
+import Wf.Drv.Lde
 
 open Wf.Drv
 
@@ -45,6 +46,7 @@ def dispatch (line : String) : String :=
   | "c08" :: rest => handleFri rest
   | "c29" :: rest => handleValidate rest
   | "c29t" :: rest => handleTable rest
+  | "c28" :: rest => handleLde rest
   | _ => "bad-family"
 
 partial def loop (h : IO.FS.Stream) (out : IO.FS.Stream) : IO Unit := do
